@@ -160,8 +160,8 @@ def first_type_arg(self_ty):
 
 def block_text(b):
     # `of` mentions a type parameter of the block in its signature (parameter order matters)
-    return 'impl%s %s%s {\n    pub const NAME: &\'static str = "%s";\n    const SECRET: u8 = %d;\n    pub fn f() -> &\'static str { "%s" }\n    pub fn of(_x: Option<&%s%s>) -> u8 { %d }\n}\n' % (
-        b.generics(), b.fmt(b.self_ty), b.where(), b.tag, int(b.tag[1:]) + 1, b.tag, b.fmt(getattr(b, 'of_lifetime', '')), b.fmt(first_type_arg(b.self_ty)), int(b.tag[1:]) + 1)
+    return 'impl%s %s%s {\n    pub const NAME: &\'static str = "%s";\n    const SECRET: u8 = %d;\n    pub fn f() -> &\'static str { "%s" }\n    pub fn of(_x: Option<&%s%s>) -> u8 { %d }\n    pub(crate) fn pc() -> u8 { %d }\n}\n' % (
+        b.generics(), b.fmt(b.self_ty), b.where(), b.tag, int(b.tag[1:]) + 1, b.tag, b.fmt(getattr(b, 'of_lifetime', '')), b.fmt(first_type_arg(b.self_ty)), int(b.tag[1:]) + 1, int(b.tag[1:]) + 1)
 
 
 def invocation(c, order=None):
@@ -187,7 +187,7 @@ def shadow_program(c):
 def positive_program(c, implemented):
     inside = ''.join('    pub fn secret_%d() -> u8 { <%s>::SECRET }\n' % (j, c.probes[j]) for j in implemented)
     src = gp.PRELUDE + gp.world_text(c.world) + module(c, inside) + 'use m::Wr;\n'
-    lines = ['    println!("V%d {} {} {} {}", <%s>::NAME, <%s>::f(), m::secret_%d(), <%s>::of(None));' % (j, c.probes[j], c.probes[j], j, c.probes[j]) for j in implemented]
+    lines = ['    println!("V%d {} {} {} {} {}", <%s>::NAME, <%s>::f(), m::secret_%d(), <%s>::of(None), <%s>::pc());' % (j, c.probes[j], c.probes[j], j, c.probes[j], c.probes[j]) for j in implemented]
     return src + 'fn main() {\n%s\n}\n' % '\n'.join(lines)
 
 
@@ -278,7 +278,7 @@ def core(rng, n, cases=None):
         stats['implemented'] += len(impl)
         for j in impl:
             b = c.blocks[tables[ci][j][0]]
-            want = '%s %s %d %d' % (b.tag, b.tag, int(b.tag[1:]) + 1, int(b.tag[1:]) + 1)
+            want = '%s %s %d %d %d' % (b.tag, b.tag, int(b.tag[1:]) + 1, int(b.tag[1:]) + 1, int(b.tag[1:]) + 1)
             stats['values_checked'] += 1
             if V.get(str(j)) != want:
                 violations.append(dict(kind='property', request=invocation(c), program=prog,
